@@ -5,6 +5,7 @@ go 1.12
 require (
 	github.com/dgraph-io/badger/v2 v2.0.3
 	github.com/ethereum/go-ethereum v1.9.15
+	github.com/gorilla/websocket v1.4.2
 	github.com/vipnode/vipnode/v2 v2.0.0
 )
 
